@@ -471,8 +471,6 @@ def run(ctx):
             for i, s in enumerate(st[:-1]):
                 if s["a"] == 0: continue
                 stepname = h["steps"][i]
-                if h["so"] and stepname.split(":")[0] == "enc" and stepname.split(":")[1] in ("der", "uper", "cxer"):
-                    skipped["F21/F7:alloc-failure-in-SET-OF-encode"] += 1; continue
                 ks = choose_ks(s["a"], max(6, budget // max(1, sum(1 for x in st[:-1] if x["a"] > 0))))
                 for k in ks:
                     steps = list(h["steps"]); steps[i] = "!" + steps[i]
